@@ -29,20 +29,17 @@ func init() {
 			if t == ev.Thorough {
 				return 20000
 			}
-			return 320
+			return 640
 		},
 		Batches: func(t string) int {
-			if t == ev.Thorough {
-				return 16
-			}
-			return 8
+			return 16
 		},
 		Rule: "each case = one trie of 1-300 keys (C17 generator: prefix-of-other-key, extension, sibling nibble, long shared prefix; values 1-100 bytes around the 32-byte embedding boundary; random snapshot/flush/reload regime; bytes or object API). Up to 24 stored keys: GetProof must be non-nil and Prove must return the model's value on (a) a fresh immutable made from the root hash over an EMPTY db, (b) one accumulating verifier over an empty db, (c) the producing snapshot, (d) a fresh immutable over the populated db. Alterations of each proof, each tried on a fresh empty-db verifier and on the accumulating verifier: one bit flipped in every element (first byte, last byte, 3 random bits), every element dropped, last dropped, adjacent elements swapped, every element duplicated, one extra element appended (copy of an element / random bytes), element replaced by the same-position element of another key's proof; plus the untouched proof against another trie's root (a one-value-different sibling trie and an unrelated trie). Up to 16 absent near-miss keys: Prove with the trie's own GetProof output, with nil, and with a stored neighbour's proof must not yield a value. Non-trivial = distinct (root,key) whose proof has >=2 elements and whose alterations were all evaluated, or distinct (root, absent key) for which GetProof returned a non-nil proof.",
 		MinNonTrivial: func(t string) int {
 			if t == ev.Thorough {
 				return 100000
 			}
-			return 2000
+			return 4000
 		},
 		Required: []string{"proofs_verified_fresh_emptydb", "proofs_verified_accumulating", "proofs_verified_producer", "proof_elements",
 			"alter_bitflip_rejected", "alter_drop_rejected", "alter_swap_rejected", "alter_duplicate_rejected", "alter_append_rejected",
